@@ -32,9 +32,14 @@ def Table.lookup (T : Table) (n : String) : Option Alias := T.find? (fun a => a.
 
 def Table.names (T : Table) : List String := T.map (·.name)
 
-/-- `is_blank`: whitespace other than newline (ASCII part of `char::is_whitespace`). -/
+/-- `is_blank` (lex/core.rs): `c != '\n' && c.is_whitespace()`.  `char::is_whitespace` is the Unicode
+    `White_Space` property: U+0009–U+000D, U+0020, U+0085, U+00A0, U+1680, U+2000–U+200A, U+2028, U+2029,
+    U+202F, U+205F, U+3000 (the table is re-read by `tools/tables/alias.py` into
+    `Generated/AliasTables.whiteSpace`; `TableLemmas.isBlank_generated` ties this definition to it). -/
 def isBlank (c : Char) : Bool :=
-  c == ' ' || c == '\t' || c == '\r' || c == '\x0b' || c == '\x0c'
+  c == ' ' || c == '\t' || c == '\r' || c == '\x0b' || c == '\x0c' ||
+  c == '\u0085' || c == '\u00a0' || c == '\u1680' || (0x2000 ≤ c.val && c.val ≤ 0x200a) ||
+  c == '\u2028' || c == '\u2029' || c == '\u202f' || c == '\u205f' || c == '\u3000'
 
 /-- `is_operator_char`: first characters of `OPERATORS`. -/
 def isOpChar (c : Char) : Bool :=
@@ -700,6 +705,11 @@ def fuelFor (T : Table) (line : List Char) : Nat := mu T (plain line) + 1
 
 def MState.text (s : MState) : List Char := (s.pre.reverse ++ s.rest).map (·.c)
 
+/-- The origin chain of every character of the buffer (`sc.value.location.code.source` followed through
+    `Source::Alias{original, alias}`, innermost alias first), in buffer order.  The harness reads the same list
+    from the real lexer with `Lexer::location_range(i..i+1)`. -/
+def MState.origins (s : MState) : List (List String) := (s.pre.reverse ++ s.rest).map (·.chain)
+
 /-- The model's result: final state for a table and a line. -/
 def substState (T : Table) (line : List Char) : MState := (run T (fuelFor T line) (init line)).1
 
@@ -723,10 +733,12 @@ structure Track where
   pending : List (List (List Char)) := []   -- `alias`/`unalias` commands of this line, most recent first
   deriving Repr
 
-/-- `alias name=value`: `AliasSet::replace` -/
+/-- `alias name=value` (`alias/semantics.rs` `define`): split at the FIRST `=` (`value.find('=')`); an operand
+    without `=` defines nothing (it is printed); the name may be empty (`alias =x` defines the alias `""`,
+    which no word can ever name); then `AliasSet::replace`. -/
 def defineAlias (T : Table) (arg : List Char) : Table :=
   let name := arg.takeWhile (· != '=')
-  if name.isEmpty || name.length == arg.length then T
+  if name.length == arg.length then T
   else
     let n := String.ofList name
     { name := n, value := arg.drop (name.length + 1), global := false } :: T.filter (fun a => a.name != n)
@@ -761,10 +773,12 @@ def isOpener (w : String) : Bool :=
 
 def isCloser (w : String) : Bool := w == "}" || w == "fi" || w == "done" || w == "esac"
 
-/-- a bare `alias`/`unalias` command whose words need quote removal only (the harness executes exactly these) -/
+/-- a bare `alias`/`unalias` command whose words need quote removal only (the harness executes exactly these):
+    the command word is a LITERAL (`to_string_if_literal`, so a line continuation inside `al\<newline>ias` vanishes
+    and a quoted `'alias'` does not count) equal to `alias` / `unalias` -/
 def isAliasCmd (ws : List (List Char)) : Bool :=
   (match ws.getLast? with
-   | some w => w == "alias".toList || w == "unalias".toList
+   | some w => wordLit w == some "alias".toList || wordLit w == some "unalias".toList
    | none => false) &&
   ws.all (fun w => !w.any (fun c => c == '$' || c == '`' || c == '~' || c == '*' || c == '?' || c == '['))
 
